@@ -1015,8 +1015,16 @@ impl Melda {
     /// assert_eq!("1-e8e7db1ed2e2e9b7360c9216b8f21353e37ec0365c3d95c51a1302759da9e196", winner);
     /// ```    
     pub fn reload(&self) -> Result<()> {
-        // Check that stage is empty, otherwise fail (user must unstage explicity if necessary)
-        if self.has_staging() {
+        // Check that stage is empty, otherwise fail (user must unstage explicity if necessary).
+        // Object bodies may be staged although no revision is (an object created and then removed again):
+        // the data storage would refuse to reload, after the documents have been cleared
+        if self.has_staging()
+            || self
+                .data
+                .read()
+                .expect("cannot_acquire_data_for_reading")
+                .has_staging()
+        {
             bail!("stage_not_empty")
         }
         // Clear the documents
@@ -1216,8 +1224,14 @@ impl Melda {
         if anchors.is_empty() {
             return self.reload();
         }
-        // Ensure that the stage is empty
-        if self.has_staging() {
+        // Ensure that the stage is empty (revisions and object bodies, see reload)
+        if self.has_staging()
+            || self
+                .data
+                .read()
+                .expect("cannot_acquire_data_for_reading")
+                .has_staging()
+        {
             bail!("stage_not_empty")
         }
         let mut documents_w = self
